@@ -95,7 +95,7 @@ func sortedFacts(facts []Atom) string {
 		t := short(a.String())
 		// the test of a spliced helper's merged result restates what the threaded guards
 		// of the feasible exits already say
-		if strings.Contains(t, "Phi[_r") || seen[t] {
+		if false || seen[t] {
 			continue
 		}
 		seen[t] = true
